@@ -105,6 +105,11 @@ def materialize(name, opts, data, aseed=0, extra=None):
   if isinstance(p.get('basis'), str) and p.get('basis') == 'array':
     K = p.pop('n_basis_array', None) or (d + 4)
     p['basis'] = gen.basis_from_seed(K, d, aseed)
+  if aseed % 3 == 0:
+    # memory layout is not part of an array's meaning: a third of the array-valued options are column-major
+    for key in ('init', 'prior', 'basis'):
+      if isinstance(p.get(key), np.ndarray):
+        p[key] = np.asfortranarray(p[key])
   if name in ('SCML', 'SCML_Supervised') and 'n_basis' not in p and isinstance(p.get('basis', 'x'), str):
     b = p.get('basis', 'triplet_diffs' if name == 'SCML' else 'lda')
     p['n_basis'] = 3 * d + 2 if b == 'triplet_diffs' else 2 * d + 1
